@@ -46,6 +46,20 @@ def gen(rng, tier):
         feats = []
         while not feats:
             feats = G.gtf_annotation(rng, {"max_genes": 2})
+    if fmt == "gff3" and rng.random() < 0.25:
+        # the file mixes the two legal spellings of multi-valued attributes (repeated keys on some lines, comma lists on
+        # others) - the same attributes either way - and lines differ in their number of attributes
+        for f in feats:
+            multi = [a for a in f["attrs"] if len(a[1]) > 1]
+            if not multi and rng.random() < 0.5:
+                f["attrs"].append(["Dbxref", ["x:1", "y:2"]])
+                multi = [f["attrs"][-1]]
+            if multi and rng.random() < 0.6:
+                f["_repeat"] = True
+    if fmt == "gff3" and rng.random() < 0.15:
+        for f in feats:
+            if rng.random() < 0.3:
+                f["cols"][3] = f["cols"][4] = None  # '.' coordinates
     if rng.random() < 0.25:
         # attribute values with characters that are line boundaries for str.splitlines() but not for a file
         for f in feats:
@@ -53,6 +67,7 @@ def gen(rng, tier):
                 f["attrs"].append(["odd", [rng.choice(["a\u2028b", "x\x85y", "p\u2029q", "v\x1cw"])]])
     n = len(feats)
     tr = rng.choice([None, None, {"kind": "identity"}, {"kind": "tag", "key": "tag", "val": "x"}, {"kind": "shift", "by": 3},
+                     {"kind": "append_inplace", "key": rng.choice(["Name", "Parent", "note"]), "val": "zz"},
                      {"kind": "drop_type", "type": rng.choice(["exon", "gene", "CDS"]), "falsy": rng.choice(["none", "false"])},
                      {"kind": "drop_every", "n": rng.choice([2, 3]), "r": rng.choice([0, 1]),
                       "falsy": rng.choice(["none", "false", "zero", "empty"])}])
@@ -86,7 +101,7 @@ def gen(rng, tier):
             "streams": streams, "inspect": insp,
             "string_extras": {"pair": rng.random() < 0.3, "read_first": rng.random() < 0.5, "torn_then_reimport": rng.random() < 0.2,
                               "short_writes": rng.random() < 0.3, "checklines": rng.choice([0, 1, 10])},
-            "db_delete_at": db_delete_at}
+            "db_delete_at": db_delete_at, "gz_members": rng.choice([1, 1, 2, 3])}
 
 
 def _d(case):
@@ -95,7 +110,7 @@ def _d(case):
 
 def _spec(case, form, name="in.gff"):
     if form == "gz":
-        return {"form": "gz", "text": G.render_text(case["feats"], _d(case)), "name": name}
+        return {"form": "gz", "text": G.render_text(case["feats"], _d(case)), "name": name, "members": case.get("gz_members", 1)}
     return G.source_spec(None, case["feats"], form=form, d=_d(case), name=name)
 
 
@@ -108,7 +123,7 @@ def _fkey(f):
 
 
 def _strip(dump):
-    feats = [{k: v for k, v in f.items() if k != "line"} for f in dump["features"]]
+    feats = [{k: v for k, v in f.items() if k not in ("line", "line2")} for f in dump["features"]]
     return {"features": feats, "rel": dump.get("rel"), "directives": dump["directives"], "fmt": dump["dialect"]["fmt"]}
 
 
